@@ -482,22 +482,52 @@ def evaluate(desc, voi=0.0, voi_var=None, states=None, strict=False, nla_guess=N
         raise EvalError("several variables of integration")
     res.voi_class = next(iter(voi_classes)) if voi_classes else None
 
-    # which equation defines what
+    # which equation defines what: repeated elimination of unknowns (document order must not matter).
+    # known = voi, states, initialised variables; an equation with exactly one unknown class that stands alone (bare
+    # <ci>) on one of its sides defines it; an equation with a diff on one side defines that rate when everything
+    # else in it is known or is a bare definable <ci> handled above; what remains is implicit (NLA).
     ode_def, expl_def, implicit = {}, {}, []
+    known = set(init) | set(state_classes) | ({res.voi_class} if res.voi_class is not None else set())
+    pending = []
     for comp, lhs, rhs in eqs:
+        names, diffs = variables_in(("ap", "minus", [lhs, rhs], None))
+        ks = []
+        for n in names:
+            if (comp, n) not in res.class_of:
+                raise EvalError("unknown variable %r in component %s" % (n, comp))
+            k = cls(comp, n)
+            if k not in ks:
+                ks.append(k)
+        pending.append((comp, lhs, rhs, ks))
+    # rates first: `d x/d t = rhs` (or `lhs = d x/d t` when lhs is not a lone unknown variable)
+    rest = []
+    for comp, lhs, rhs, ks in pending:
         if lhs[0] == "diff" and cls(comp, lhs[1]) not in ode_def:
             ode_def[cls(comp, lhs[1])] = (comp, lhs, rhs)
-            continue
-        if rhs[0] == "diff" and lhs[0] != "diff" and cls(comp, rhs[1]) not in ode_def and \
-                not (lhs[0] == "ci" and _definable(res, init, state_classes, expl_def, comp, lhs)):
+        elif rhs[0] == "diff" and cls(comp, rhs[1]) not in ode_def and \
+                not (lhs[0] == "ci" and cls(comp, lhs[1]) not in known):
             ode_def[cls(comp, rhs[1])] = (comp, rhs, lhs)
-            continue
-        if lhs[0] == "ci" and _definable(res, init, state_classes, expl_def, comp, lhs):
-            expl_def[cls(comp, lhs[1])] = (comp, lhs[1], rhs)
-        elif rhs[0] == "ci" and _definable(res, init, state_classes, expl_def, comp, rhs):
-            expl_def[cls(comp, rhs[1])] = (comp, rhs[1], lhs)
         else:
-            implicit.append((comp, lhs, rhs))
+            rest.append((comp, lhs, rhs, ks))
+    progress = True
+    while progress and rest:
+        progress = False
+        for item in list(rest):
+            comp, lhs, rhs, ks = item
+            unknown = [k for k in ks if k not in known]
+            if len(unknown) != 1:
+                continue
+            u = unknown[0]
+            if lhs[0] == "ci" and cls(comp, lhs[1]) == u and u not in variables_classes(res, comp, rhs):
+                expl_def[u] = (comp, lhs[1], rhs)
+            elif rhs[0] == "ci" and cls(comp, rhs[1]) == u and u not in variables_classes(res, comp, lhs):
+                expl_def[u] = (comp, rhs[1], lhs)
+            else:
+                continue
+            known.add(u)
+            rest.remove(item)
+            progress = True
+    implicit = [(comp, lhs, rhs) for comp, lhs, rhs, ks in rest]
 
     # NLA systems
     unknown_of_eq = []
@@ -579,7 +609,15 @@ def evaluate(desc, voi=0.0, voi_var=None, states=None, strict=False, nla_guess=N
                     if k not in init:
                         raise EvalError("state %s is not initialised" % (res.classes[k][0],))
                     key, text = init[k]
-                    v = number(text) * res.m(key)
+                    if re.fullmatch(r"[+-]?(\d+\.?\d*|\.\d+)([eE][+-]?\d+)?", text.strip()):
+                        v = number(text) * res.m(key)
+                    else:
+                        # initial_value="name": the value of variable `name` of the same component (a number in
+                        # that variable's own units) becomes the initial value, read in the initialised variable's units
+                        ref = (key[0], text.strip())
+                        if ref not in res.class_of:
+                            raise EvalError("initial value %r of %s is neither a number nor a variable" % (text, key))
+                        v = q_of(res.class_of[ref]) / res.m(ref) * res.m(key)
             elif kind == "computed":
                 comp, name, rhs = expl_def[k]
                 v = ev.ev(rhs, Env(comp)) * res.m((comp, name))
@@ -711,6 +749,12 @@ def evaluate(desc, voi=0.0, voi_var=None, states=None, strict=False, nla_guess=N
     res.ode_def, res.expl_def, res.init = ode_def, expl_def, init
     res.state_classes = state_classes
     return res
+
+
+def variables_classes(res, comp, e):
+    """classes of the variables mentioned (as <ci> or under diff) in expression e of component comp"""
+    names, diffs = variables_in(e)
+    return {res.class_of[(comp, n)] for n in names} | {res.class_of[(comp, x)] for x, t in diffs}
 
 
 def _definable(res, init, state_classes, expl_def, comp, ci):
